@@ -109,19 +109,22 @@ where
         writeln!(writer, "pub struct {rust_name} {{")?;
         for (part_name, header) in &soap_operation.headers {
             let field_name = as_field_name(part_name);
-            let rust_type = header
+            // the header entry is the element the part refers to, under that element's name;
+            // the type is spelled the way the struct for that element is
+            let xml_name = header
                 .rust_type
                 .xml_name()
                 .ok_or_else(|| WriterError::NodeNotFound(part_name.clone()))?;
+            let rust_type = to_pascal_case(xml_name);
 
             if let Some(namespace) = header.in_namespace.as_ref() {
                 let abbreviation = namespace.abbreviation.as_str();
                 writeln!(
                     writer,
-                    "#[yaserde(prefix = \"{abbreviation}\", rename = \"{part_name}\")]"
+                    "#[yaserde(prefix = \"{abbreviation}\", rename = \"{xml_name}\")]"
                 )?;
             } else {
-                writeln!(writer, "    #[yaserde(rename = \"{part_name}\")]")?;
+                writeln!(writer, "    #[yaserde(rename = \"{xml_name}\")]")?;
             }
 
             // todo: we should check if the "mustUnderstand" == 1 to make the field required
@@ -129,7 +132,7 @@ where
                 let mod_name = namespace.rust_mod_name.as_str();
                 writeln!(writer, "    pub {field_name}: Option<{mod_name}::{rust_type}>,",)?;
             } else {
-                writeln!(writer, "    pub {field_name}: Option<{rust_type}>",)?;
+                writeln!(writer, "    pub {field_name}: Option<{rust_type}>,",)?;
             }
         }
         writeln!(writer, "}}")?;
@@ -154,6 +157,8 @@ where
         .ok_or_else(|| WriterError::NodeNotFound(format!("body of {envelope_name}")))?;
     let body_field_name = as_field_name(&to_snake_case(body));
     let xml_name = body;
+    // the type is spelled the way the struct for that element is
+    let body = to_pascal_case(body);
 
     writeln!(writer, "#[derive(Debug, Default, YaSerialize, YaDeserialize)]")?;
 
